@@ -543,6 +543,7 @@ func Run(tier string, seed int64, outDir string) *common.Meta {
 		}
 		selectionStream(meta, cs[0], infos, append(append([]*fw.File(nil), cs[0].files...), cr.files...), full)
 		selectionForeign(meta, cs[0], infos, cs[0].files)
+		poisonProbe(meta, cs[0], infos, cs[0].files, p0.out)
 		meta.Distribution["renamed_import_packages"] = len(cr.pkgs)
 		meta.Distribution["renamed_import_packages_with_type_errors"] = nErr
 		meta.Distribution["selection_s"] = time.Since(t3).Seconds()
